@@ -2,11 +2,18 @@
 from ..core import rt_run, guard
 
 # attribute contexts: how a field's own meta is placed relative to an attribute of *another* educed trait
-CTX = ['alone', 'sep_before', 'sep_after', 'list_before', 'list_after']
+CTX = ['alone', 'sep_before', 'sep_after', 'list_before', 'list_after', 'foreign_before', 'foreign_after', 'foreign_between']
+FOREIGN = ['#[doc = "d"]', '#[allow(unused)]', '#[cfg_attr(all(), allow(dead_code))]']
 
 
 def place(own, other, ctx):
     """own / other: meta texts such as 'PartialEq(ignore)' (own may be None).  Returns attribute lines."""
+    if ctx == 'foreign_before':      # attributes that are not educe's around the field's own one
+        return FOREIGN + (['#[educe(%s)]' % own] if own else []) + (['#[educe(%s)]' % other] if other else [])
+    if ctx == 'foreign_after':
+        return (['#[educe(%s)]' % other] if other else []) + (['#[educe(%s)]' % own] if own else []) + FOREIGN
+    if ctx == 'foreign_between':
+        return (['#[educe(%s)]' % other] if other else []) + FOREIGN[:2] + (['#[educe(%s)]' % own] if own else []) + FOREIGN[2:]
     if ctx == 'alone' or other is None:
         return ['#[educe(%s)]' % own] if own else []
     if own is None:
